@@ -85,6 +85,7 @@ func specC01() *PropSpec {
 		Obligations: []Obligation{
 			{Harness: "VerifC01Tri2x2", Pkg: "snap", Mode: "math", Tiers: "both", Covers: []string{"snapped", "has-geometry"}, Subst: snapSubst,
 				Desc: "valid triangle, pixels in a 2x2 window straddling the root centre, all sub-pixel positions: no proper crossing", Bounds: "n=3, 2x2 px window, 2^-10 px lattice, id {0}, all flags"},
+			pipeObl("VerifC01ThinShellHole", "both", "template: thin shell collapsing at tile matrix 0 only, with a triangular hole", "shell 4 + hole 3 vertices in pixels (7,7),(8,7), corner positions jittering on the 1/8 px lattice (valid by construction), ids {0,1}", "snapped", "has-geometry"),
 			{Harness: "VerifC01Quad2x2", Pkg: "snap", Mode: "math", Tiers: "thorough", Covers: []string{"snapped", "has-geometry"}, Subst: snapSubst,
 				Desc: "valid quadrilateral, 2x2 window", Bounds: "n=4, 2x2 px window, 2^-10 px lattice, id {0}, all flags"},
 			{Harness: "VerifC01Tri3x3", Pkg: "snap", Mode: "math", Tiers: "thorough", Covers: []string{"snapped", "has-geometry"}, Subst: snapSubst,
@@ -96,7 +97,7 @@ func specC01() *PropSpec {
 }
 
 func pipeObl(h, tiers, desc, bounds string, covers ...string) Obligation {
-	return Obligation{Harness: h, Pkg: "snap", Mode: "math", Tiers: tiers, Covers: covers, Subst: snapSubst, Desc: desc, Bounds: bounds}
+	return Obligation{Harness: h, Pkg: "snap", Mode: "math", Tiers: tiers, Covers: covers, Subst: snapSubst, Desc: desc, Bounds: bounds, Budget: 80000000}
 }
 
 var pipeAssumptions = []string{
@@ -114,7 +115,15 @@ var pipeOutside = []string{
 func specC04() *PropSpec {
 	return &PropSpec{ID: "C04", NeedsGen: true, Assumptions: pipeAssumptions, Outside: pipeOutside,
 		Obligations: []Obligation{
-			pipeObl("VerifC04Tri2x2", "both", "valid triangle: vertex provenance, edges within half a pixel of an input edge, coverage agreement at a symbolic probe location", "n=3, 2x2 px window, all sub-pixel positions (2^-10 px), id {0}, all flags; probe anywhere on the lattice within 2 px of the window", "checked", "has-geometry"),
+			pipeObl("VerifC04Tri2x2", "both", "valid triangle: every output vertex is the pixel centre of an input vertex; both ends of every output edge within half a pixel (Chebyshev) of one input edge", "n=3, 2x2 px window, all sub-pixel positions (2^-10 px), id {0}, all flags (no location in such a triangle is farther than a pixel from its boundary, so coverage is checked in the template below)", "checked", "has-geometry"),
+			func() Obligation {
+				o := pipeObl("VerifC04ShellWithHole", "thorough", "template: fixed square shell with any valid triangular hole in the window: provenance, edge distance, and coverage agreement at 49 probe locations (pixel centres) wherever they are farther than one pixel from the input boundary", "hole n=3 in 2x2 px window, sub-pixel positions {1/4,3/4}, ids {0,1}, flags none and keep+reverse", "checked", "has-geometry")
+				o.Budget = 40000000
+				o.DeadlineSec = 1500
+				return o
+			}(),
+			{Harness: "VerifMatchInners", Pkg: "snap", Mode: "math", Tiers: "both", Internal: true, Covers: []string{"matched", "realistic-configuration"}, MapOrderBudget: 3,
+				Desc: "hole matching on catalogues of shells (nested, overlapping with equal area, touching, disjoint; 2-3 at a time, every order) and holes (every start vertex): attached exactly once, to a shell containing it, the smallest such; independent of map iteration order", Bounds: "7 shells x 7 holes catalogue, 2..3 shells, 1 hole"},
 			pipeObl("VerifC04Quad2x2Half", "thorough", "valid quadrilateral, half lattice", "n=4, 2x2 px window, sub-pixel positions {1/4,3/4}, ids {0,1}", "checked", "has-geometry"),
 		}}
 }
@@ -127,6 +136,13 @@ func specC05() *PropSpec {
 			pipeObl("VerifC05Ring4Centre", "both", "any 4-vertex ring on pixel centres, two levels", "n=4, 2x2 px window, pixel centres, ids {0,1}", "checked"),
 			pipeObl("VerifC05Ring3Full", "thorough", "any 3-vertex ring, all sub-pixel positions, two levels", "n=3, 2x2 px window, 2^-10 px lattice, ids {0,1}", "checked"),
 			pipeObl("VerifC05Ring4Edgy", "thorough", "any 4-vertex ring on pixel borders/corners/centres", "n=4, 2x2 px window, sub-pixel positions {0,1/2}, id {0}", "checked"),
+			pipeObl("VerifC05ThinShellHole", "both", "template: thin shell collapsing at tile matrix 0 only, with a triangular hole", "shell 4 + hole 3 vertices in pixels (7,7),(8,7), corner positions jittering on the 1/8 px lattice (valid by construction), ids {0,1}", "checked"),
+			pipeObl("VerifC05BowtieHole", "both", "template: fixed square shell with a self-crossing four-vertex hole (one vertex per pixel of the window, Z order)", "hole vertices pinned to pixels (7,7),(8,7),(7,8),(8,8), sub-pixel positions {1/4,3/4}, ids {0,1}", "checked"),
+			func() Obligation {
+				o := pipeObl("VerifC05BowtieHoleEighth", "thorough", "same on the 1/8 px lattice with three tile matrices (time-boxed)", "hole vertices pinned to 4 pixels, 1/8 px lattice, ids {0,1,2}; time box 20 min", "checked")
+				o.DeadlineSec = 1200
+				return o
+			}(),
 			pipeObl("VerifC05Ring5Centre", "thorough", "any 5-vertex ring on pixel centres", "n=5, 3x3 px window, pixel centres, ids {0,1}", "checked"),
 			pipeObl("VerifC05Hole", "thorough", "any shell + hole of 3 vertices each", "3+3 vertices, 2x2 px window, sub-pixel positions {0,1/2}, id {0}", "checked"),
 		}}
@@ -141,31 +157,54 @@ func specC06() *PropSpec {
 			pipeObl("VerifC06Ring3Full", "thorough", "any 3-vertex ring, all sub-pixel positions, two levels", "n=3, 2x2 px window, 2^-10 px lattice, ids {0,1}", "ran"),
 			pipeObl("VerifC06Tiny", "both", "rings of one and two points", "n=1..2, 2x2 px window, all sub-pixel positions", "ran"),
 			pipeObl("VerifC06Ring4Edgy", "thorough", "any 4-vertex ring on pixel borders/corners/centres (repeated vertices, spikes, zig-zags included)", "n=4, 2x2 px window, sub-pixel positions {0,1/2}, id {0}", "ran"),
+			pipeObl("VerifC06ThinShellHole", "both", "template: thin shell collapsing at tile matrix 0 only, with a triangular hole (valid polygon)", "shell 4 + hole 3 vertices in pixels (7,7),(8,7), corner positions jittering on the 1/8 px lattice (valid by construction), ids {0,1},{1,0},{1}, all flags", "ran"),
+			pipeObl("VerifC06BowtieHole", "both", "template: fixed square shell with a self-crossing four-vertex hole", "hole vertices pinned to pixels (7,7),(8,7),(7,8),(8,8), sub-pixel positions {1/4,3/4}, ids {0,1}", "ran"),
 			pipeObl("VerifC06Ring5Centre", "thorough", "any 5-vertex ring on pixel centres", "n=5, 3x3 px window, pixel centres, ids {0,1}", "ran"),
 			pipeObl("VerifC06Hole", "thorough", "any shell + hole of 3 vertices each", "3+3 vertices, 2x2 px window, sub-pixel positions {0,1/2}, id {0}", "ran"),
 		}}
 }
 
 func specC07() *PropSpec {
-	mo := pipeObl("VerifC07MapOrder", "both", "two executions, the second with a nondeterministic iteration order of every map range (forward/reversed, at most one reversed range per path)", "n=3 (any ring), 2x2 px window, sub-pixel positions {0,1/2}, ids {0,1}, all flags", "twice")
+	mo := pipeObl("VerifC07MapOrder", "both", "two executions, the second with a nondeterministic iteration order of every map range (forward/reversed, at most one reversed range per path)", "n=3 (any ring), 2x2 px window, pixel centres, ids {0,1}, flags none and keep+reverse", "twice")
+	mo3 := pipeObl("VerifC07MapOrderEdgy", "thorough", "same on pixel borders/corners/centres (time-boxed)", "n=3, 2x2 px window, sub-pixel positions {0,1/2}, ids {0,1}; time box 30 min", "twice")
+	mo3.DeadlineSec = 1800
 	mo2 := pipeObl("VerifC07MapOrderEdgy4", "thorough", "same for any 4-vertex ring on pixel centres, up to two reversed ranges per path", "n=4, 2x2 px window, pixel centres, ids {0,1}", "twice")
 	mo2.MapOrderBudget = 2
+	mo2.DeadlineSec = 1800
 	return &PropSpec{ID: "C07", NeedsGen: true, Assumptions: pipeAssumptions,
 		Outside: append([]string{"map iteration orders other than forward/reversed insertion order per range execution; more reversed ranges per path than stated", "goroutine scheduling (SnapPolygon starts no goroutines)"}, pipeOutside...),
 		Obligations: []Obligation{
-			mo, mo2,
-			pipeObl("VerifC07RingDirection", "both", "valid ring given in either direction => identical result", "n=3..4, 2x2 px window, sub-pixel positions {1/4,3/4}, ids {0,1}, all flags", "both-directions"),
+			mo, mo2, mo3,
+			{Harness: "VerifMatchInners", Pkg: "snap", Mode: "math", Tiers: "both", Internal: true, Covers: []string{"matched", "realistic-configuration"}, MapOrderBudget: 3,
+				Desc: "hole matching on catalogues of shells (nested, overlapping with equal area, touching, disjoint; 2-3 at a time, every order) and holes (every start vertex): attached exactly once, to a shell containing it, the smallest such; independent of map iteration order", Bounds: "7 shells x 7 holes catalogue, 2..3 shells, 1 hole"},
+			pipeObl("VerifC07RingDirection", "both", "valid triangle given in either direction => identical result", "n=3, 2x2 px window, all sub-pixel positions (2^-10 px), id {0}, all flags", "both-directions"),
+			func() Obligation {
+				o := pipeObl("VerifC07RingDirectionHalf", "thorough", "valid ring of 3..4 vertices given in either direction, two levels (time-boxed)", "n=3..4, 2x2 px window, sub-pixel positions {1/4,3/4}, ids {0,1}, all flags; time box 35 min", "both-directions")
+				o.DeadlineSec = 2100
+				return o
+			}(),
 			pipeObl("VerifC07RingDirectionHole", "thorough", "square shell with triangular hole, any subset of rings reversed", "hole n=3 in 2x2 px window, positions {1/4,3/4}, id {0}", "both-directions"),
-			pipeObl("VerifC07ReverseFlag", "both", "reverse flag only reverses every ring of 3+ vertices", "n=3..4 (any ring), 2x2 px window, positions {0,1/2}, ids {0,1}, keep on/off", "both-flags"),
+			pipeObl("VerifC07ReverseFlag", "both", "reverse flag only reverses every ring of 3+ vertices", "n=4 (any ring), 2x2 px window, pixel centres, ids {0,1}, keep on/off", "both-flags"),
+			func() Obligation {
+				o := pipeObl("VerifC07ReverseFlagEdgy", "thorough", "same on pixel borders/corners/centres (time-boxed)", "n=3..4 (any ring), 2x2 px window, positions {0,1/2}, ids {0,1}; time box 30 min", "both-flags")
+				o.DeadlineSec = 1800
+				return o
+			}(),
 		}}
 }
 
 func specC08() *PropSpec {
 	return &PropSpec{ID: "C08", NeedsGen: true, Assumptions: pipeAssumptions, Outside: append([]string{"built-in round grids (NetherlandsRDNewQuad): only the integer arithmetic lemma level, not the pipeline"}, pipeOutside...),
 		Obligations: []Obligation{
-			pipeObl("VerifC08Levels", "both", "result for a tile matrix alone == together with another one (twin executions), keys = requested ids", "n=3 (any ring), 2x2 px window, sub-pixel positions {0,1/2}, pairs {0,1},{0,2},{1,2},{1,0}, all flags", "compared"),
+			pipeObl("VerifC08Levels", "both", "result for a tile matrix alone == together with another one (twin executions), keys = requested ids", "n=3 (any ring), 2x2 px window, sub-pixel positions {0,1/2}, pairs {0,1},{0,2},{1,2}, default flags", "compared"),
+			pipeObl("VerifC08LevelsAll", "thorough", "same with all four flag combinations and the pair {1,0}", "n=3 (any ring), 2x2 px window, sub-pixel positions {0,1/2}", "compared"),
+			pipeObl("VerifC08ThinShellHole", "both", "template: thin shell collapsing at tile matrix 0 only, with a triangular hole", "shell 4 + hole 3 vertices in pixels (7,7),(8,7), corner positions jittering on the 1/8 px lattice (valid by construction), pairs {0,1},{1,0},{1,2}", "compared"),
 			pipeObl("VerifC08LevelsEdgy4", "thorough", "same for any 4-vertex ring on pixel centres", "n=4, 2x2 px window, pixel centres", "compared"),
-			pipeObl("VerifC08LevelsEighth", "thorough", "same for any 3-vertex ring on the 1/8 px lattice", "n=3, 2x2 px window, 1/8 px lattice", "compared"),
+			func() Obligation {
+				o := pipeObl("VerifC08LevelsEighth", "thorough", "same for any 3-vertex ring on the 1/8 px lattice (time-boxed)", "n=3, 2x2 px window, 1/8 px lattice; time box 20 min", "compared")
+				o.DeadlineSec = 1200
+				return o
+			}(),
 		}}
 }
 
@@ -174,6 +213,8 @@ func specC18() *PropSpec {
 		Obligations: []Obligation{
 			pipeObl("VerifC18Tri2x2", "both", "valid triangle, routed boundary visits no centre more than twice: every returned edge is a routed edge or straight run, holes in shell, signed area preserved", "n=3, 2x2 px window, all sub-pixel positions, id {0}, reverse on/off", "premise-holds"),
 			pipeObl("VerifC18Tri2x2L2", "thorough", "same with two levels", "n=3, 2x2 px window, all sub-pixel positions, ids {0,1}", "premise-holds"),
+			{Harness: "VerifMatchInners", Pkg: "snap", Mode: "math", Tiers: "both", Internal: true, Covers: []string{"matched", "realistic-configuration"}, MapOrderBudget: 3,
+				Desc: "hole matching on catalogues of shells (nested, overlapping with equal area, touching, disjoint; 2-3 at a time, every order) and holes (every start vertex): attached exactly once, to a shell containing it, the smallest such; independent of map iteration order", Bounds: "7 shells x 7 holes catalogue, 2..3 shells, 1 hole"},
 			pipeObl("VerifC18Quad2x2Half", "thorough", "valid quadrilateral on the half lattice", "n=4, 2x2 px window, positions {1/4,3/4}, ids {0,1}", "premise-holds", "collapsing"),
 			pipeObl("VerifC18Pent3x3Centre", "thorough", "valid pentagon on pixel centres", "n=5, 3x3 px window, pixel centres, id {0}", "premise-holds"),
 		}}
@@ -186,7 +227,7 @@ func specC03() *PropSpec {
 				Desc: "pixel extent/centre arithmetic for a symbolic pixel address; float centre within the reported deviation of the ideal centre", Bounds: "7 accepted built-in sets x deepest id {0,mid,max} x requested id {0,mid,deepest} (levels <= 32), every pixel address"},
 			{Harness: "VerifC03CentresThorough", Pkg: "pointindex", Mode: "math", Tiers: "thorough", Internal: true, Covers: []string{"centre"},
 				Desc: "same for every (deepest id, requested id) pair", Bounds: "7 accepted built-in sets x all (d,z) pairs with level <= 32, every pixel address"},
-			pipeObl("VerifC03Levels", "both", "every returned coordinate of tile matrix z is exactly a pixel centre of level z+4 of the synthetic grid (all 7 id subsets, all flags)", "n=3 (any ring), 2x2 px window, sub-pixel positions {0,1/2}", "checked"),
+			pipeObl("VerifC03Levels", "both", "every returned coordinate of tile matrix z is exactly a pixel centre of level z+4 of the synthetic grid (id subsets {1},{0,1},{0,2},{0,1,2}; flags none and keep+reverse)", "n=3 (any ring), 2x2 px window, sub-pixel positions {0,1/2}", "checked"),
 		}}
 }
 
@@ -196,7 +237,9 @@ func specC14() *PropSpec {
 		Outside:     []string{"sets with more than 4 tile matrices (every condition is per matrix or per consecutive pair, so first/interior/last positions are all exercised)", "more than one position with malformed discrete fields at a time"},
 		Obligations: []Obligation{
 			{Harness: "VerifC14Symbolic", Pkg: "pointindex", Mode: "bits", Tiers: "both", Covers: []string{"accepted", "rejected"},
-				Desc: "symbolic tile matrix set of 1..4 matrices: accepted => every quadtree condition; never panics", Bounds: "all 64-bit widths/heights, all float64 cell sizes and origins (NaN, Inf included), one position with free id string / corner / variable widths / id gap"},
+				Desc: "symbolic tile matrix set of 1..4 matrices: accepted => every quadtree condition; never panics", Bounds: "all 64-bit widths/heights, all float64 origins (NaN, Inf included), cell-size ratios from {2, 1.99, 2.01, just outside, 1, 4, 0.5, Inf, NaN} per pair, one position with free id string / corner / variable widths / id gap"},
+			{Harness: "VerifC14SymbolicCells", Pkg: "pointindex", Mode: "bits", Tiers: "thorough", Covers: []string{"accepted", "rejected"}, DeadlineSec: 1500,
+				Desc: "same with fully symbolic float64 cell sizes (IEEE division decided by the solver; time-boxed)", Bounds: "all float64 cell sizes; time box 25 min"},
 			{Harness: "VerifC14BuiltIns", Pkg: "pointindex", Mode: "bits", Tiers: "both", Internal: true, Covers: []string{"builtin-accepted", "builtin-rejected"},
 				Desc: "each of the 14 built-in sets: rejected, or accepted with pixel size = cell size/16 at every id (concrete evaluation through the interpreter)", Bounds: "14 built-in sets x all ids with level <= 32"},
 		}}
@@ -209,10 +252,10 @@ func specC15() *PropSpec {
 		Obligations: []Obligation{
 			{Harness: "VerifC15SmallMatrices", Pkg: "tms20", Mode: "bits", Tiers: "both", Covers: []string{"roundtrip"},
 				Desc: "every tile of every matrix up to 16x16 tiles (ids 0..3) of every built-in set without variable widths: corner -> centre -> same tile; half a tile outside -> no tile", Bounds: "14 built-in sets, ids 0..3, all tiles"},
-			{Harness: "VerifC15BorderSlicesQuick", Pkg: "tms20", Mode: "bits", Tiers: "quick", Covers: []string{"roundtrip"}, TimeoutMs: 120000,
-				Desc: "symbolic tile address in 256x256 corner slices of one deep matrix of RD, WebMercator and CRS84 (exact IEEE-754 semantics)", Bounds: "3 sets x 1 matrix x 4 corner slices of 256x256 tiles"},
-			{Harness: "VerifC15BorderSlicesThorough", Pkg: "tms20", Mode: "bits", Tiers: "thorough", Covers: []string{"roundtrip"}, TimeoutMs: 300000,
-				Desc: "same for every matrix >= 256 tiles wide of every built-in set", Bounds: "all built-in sets x all matrices >= 256 wide x 4 corner slices of 256x256 tiles"},
+			{Harness: "VerifC15BorderTiles", Pkg: "tms20", Mode: "bits", Tiers: "both", Covers: []string{"roundtrip"},
+				Desc: "border tiles of every larger matrix (8 lowest / highest columns in the first and last row, and vice versa), addresses case-split, evaluated concretely through the interpreter", Bounds: "all built-in sets x ids >= 4 x 64 border tiles"},
+			{Harness: "VerifC15BorderSlicesQuick", Pkg: "tms20", Mode: "bits", Tiers: "thorough", Covers: []string{"roundtrip"}, TimeoutMs: 600000, DeadlineSec: 2400,
+				Desc: "symbolic tile address (one axis) in slices of 32 columns/rows at the ends of one deep matrix of RD, WebMercator and CRS84, exact IEEE-754 semantics decided by the solver (time-boxed: these queries take minutes each)", Bounds: "3 sets x 1 matrix x 8 slices of 32 tiles; time box 40 min"},
 			{Harness: "VerifC15BoundingBox", Pkg: "tms20", Mode: "bits", Tiers: "both", Covers: []string{"bbox"},
 				Desc: "bounding box spans corner of tile (0,0) to corner of tile (width,height) in x,y order; ToNative accepts one past the end and rejects beyond", Bounds: "all built-in sets x all matrices without variable widths (concrete evaluation through the interpreter)"},
 		}}
